@@ -14,6 +14,7 @@ import (
 	"io"
 	"io/ioutil"
 	"net/http"
+	"regexp"
 	"strings"
 	"sync"
 
@@ -21,6 +22,8 @@ import (
 	"git.arvados.org/arvados.git/sdk/go/httpserver"
 	"git.arvados.org/arvados.git/sdk/go/keepclient"
 )
+
+var unsignedLocatorRe = regexp.MustCompile(`^([[:xdigit:]]{32})(\+[0-9]+)(\+[A-Z][A-Za-z0-9@_-]*)*$`)
 
 func rewriteSignatures(clusterID string, expectHash string,
 	resp *http.Response, requestError error) (newResponse *http.Response, err error) {
@@ -80,6 +83,19 @@ func rewriteSignatures(clusterID string, expectHash string,
 				}
 
 				// for hash checking, ignore signatures
+				n, err = fmt.Fprintf(hasher, "%s%s", m[1], m[2])
+				if err != nil {
+					return nil, fmt.Errorf("Error updating manifest: %v", err)
+				}
+				sz += n
+			} else if m := unsignedLocatorRe.FindStringSubmatch(token); m != nil {
+				// Unsigned locator: pass it through
+				// unchanged, but (as above) only
+				// hash+size count for hash checking.
+				_, err = updatedManifest.Write([]byte(token))
+				if err != nil {
+					return nil, fmt.Errorf("Error updating manifest: %v", err)
+				}
 				n, err = fmt.Fprintf(hasher, "%s%s", m[1], m[2])
 				if err != nil {
 					return nil, fmt.Errorf("Error updating manifest: %v", err)
